@@ -9,6 +9,7 @@ package main
 
 import (
 	"bytes"
+	"encoding/hex"
 	"encoding/json"
 	"fmt"
 	"math/big"
@@ -27,8 +28,16 @@ func newBig(x int64) *big.Int { return big.NewInt(x) }
 
 // ---------- Coq printers ----------
 
+// cb prints a byte string as  (hx "a0ff")  (Model/C01.v: hx), which coqc reads much faster than [160;255].
+func cb(b []byte) string {
+	if len(b) == 0 {
+		return "[]"
+	}
+	return `(hx "` + hex.EncodeToString(b) + `")`
+}
+
 func coqEntry(e Entry) string {
-	return fmt.Sprintf("(%s, mkU %d %s %s)", hlib.CoqBytes(e.Key), e.Den, hlib.CoqBytes(e.Owner), e.Lock)
+	return fmt.Sprintf("(%s, mkU %d %s %s)", cb(e.Key), e.Den, cb(e.Owner), e.Lock)
 }
 func coqLedger(es []Entry) string {
 	items := make([]string, len(es))
@@ -40,31 +49,31 @@ func coqLedger(es []Entry) string {
 func coqCtx(c *builtCtx) string {
 	s := c.spec
 	return fmt.Sprintf("mkCtx %d %d %d %d %d %d %s %s %s %d %d", nodeLoc[0], nodeLoc[1], s.Height, s.PTN, s.GasLimit, s.BaseFee,
-		c.R.String(), c.Q.String(), hlib.CoqBytes(s.Elig), s.RLim, s.PLim)
+		c.R.String(), c.Q.String(), cb(s.Elig), s.RLim, s.PLim)
 }
 func coqTx(bt *builtTx) string {
 	ins := make([]string, len(bt.inKeys))
 	for i := range bt.inKeys {
-		ins[i] = fmt.Sprintf("mkIn %s %s true", hlib.CoqBytes(bt.inKeys[i]), hlib.CoqBytes(bt.pkAddrs[i]))
+		ins[i] = fmt.Sprintf("mkIn %s %s true", cb(bt.inKeys[i]), cb(bt.pkAddrs[i]))
 	}
 	outs := make([]string, len(bt.spec.Outs))
 	for i, o := range bt.spec.Outs {
-		outs[i] = fmt.Sprintf("mkOut %d %s %d", o.Den, hlib.CoqBytes(o.Addr), o.Lock)
+		outs[i] = fmt.Sprintf("mkOut %d %s %d", o.Den, cb(o.Addr), o.Lock)
 	}
-	return fmt.Sprintf("mkTx %s %s %s %s %s %d %s %s", hlib.CoqBytes(bt.hash[:]), hlib.CoqBool(!bt.spec.BadChain),
-		hlib.CoqList(ins), hlib.CoqList(outs), hlib.CoqBytes(bt.spec.Data), bt.intrinsic, hlib.CoqBool(bt.spec.CheckSig), hlib.CoqBool(bt.sigOK))
+	return fmt.Sprintf("mkTx %s %s %s %s %s %d %s %s", cb(bt.hash[:]), hlib.CoqBool(!bt.spec.BadChain),
+		hlib.CoqList(ins), hlib.CoqList(outs), cb(bt.spec.Data), bt.intrinsic, hlib.CoqBool(bt.spec.CheckSig), hlib.CoqBool(bt.sigOK))
 }
 func coqKeys(ks [][]byte) string {
 	items := make([]string, len(ks))
 	for i, k := range ks {
-		items[i] = hlib.CoqBytes(k)
+		items[i] = cb(k)
 	}
 	return hlib.CoqList(items)
 }
 func coqObs(o TxObs) string {
 	etxs := make([]string, len(o.Etxs))
 	for i, e := range o.Etxs {
-		etxs[i] = fmt.Sprintf("mkEtx %d %s %s %d %d", e.Type, hlib.CoqBytes(e.To), e.Value, e.Index, e.Gas)
+		etxs[i] = fmt.Sprintf("mkEtx %d %s %s %d %d", e.Type, cb(e.To), e.Value, e.Index, e.Gas)
 	}
 	return fmt.Sprintf("mkObs %s %d %s %s %s %s %s", o.Fee, o.Gas, o.Removed, o.Added, hlib.CoqList(etxs), coqKeys(o.Spent), coqKeys(o.Created))
 }
@@ -124,7 +133,9 @@ func sameJSON(a, b any) bool {
 //                  exceed the value of inputs of denomination >= d
 //   rejected-noop  a rejected block leaves the DB untouched
 //   backends-agree identical verdicts, effects and final DB on all backends
-//   worker-agrees  the list accepted by the worker is accepted by ProcessQiTx (checkSig=false) with the same fees/ETXs
+//   worker-agrees  the list accepted by the worker (minus what the pool would refuse) is accepted by ProcessQiTx as one
+//                  block (checkSig=false) with the same fees/ETXs/outpoints, and that block passes all monitors above
+//                  (backend name "worker-block/<backend>"); see also monitorsWorker
 
 func denVal(d uint8) *big.Int {
 	if v, ok := types.Denominations[d]; ok {
@@ -262,6 +273,53 @@ func monitorsProc(rep *hlib.Report, c caseJS, backendName string, s *Scenario, c
 	}
 }
 
+// monitorsWorker: the property evaluated directly on what the real worker.processQiTx (block assembly) and the
+// real ValidateQiTxInputs (pool admission) decided, from the scenario alone:
+//   spent-once site=worker   the transactions the worker put into ONE pending block name no outpoint twice
+//                            (inside one transaction or across transactions, whatever was rejected in between)
+//   existed site=worker      every outpoint they consume is an unlocked record of the committed database
+//   authorised site=pool     ValidateQiTxInputs ok => EVERY input (not every distinct key) names an existing,
+//                            unlocked record of a legal denomination whose owner is the address of the key the
+//                            input carries
+func monitorsWorker(rep *hlib.Report, c caseJS, s *Scenario, ctx *builtCtx, txs []*builtTx, wo WorkerObs) {
+	base := ledgerMap(baseEntries(s))
+	seen := map[string]int{}
+	for ti, bt := range txs {
+		if ti < len(wo.Mempool) && wo.Mempool[ti] {
+			for ii, k := range bt.inKeys {
+				e, ok := base[string(k)]
+				lock, _ := new(big.Int).SetString(e.Lock, 10)
+				switch {
+				case !ok:
+					rep.Fail("monitor=authorised site=pool", fmt.Sprintf("scenario %q: ValidateQiTxInputs accepts tx %d whose input %d names outpoint %x which is not in the database", s.Name, ti, ii, k), c)
+				case !bytes.Equal(e.Owner, bt.pkAddrs[ii]):
+					rep.Fail("monitor=authorised site=pool", fmt.Sprintf("scenario %q: ValidateQiTxInputs accepts tx %d input %d: key address %x is not the owner %x", s.Name, ti, ii, bt.pkAddrs[ii], e.Owner), c)
+				case lock.Cmp(new(big.Int).SetUint64(ctx.spec.Height)) > 0 || e.Den > types.MaxDenomination:
+					rep.Fail("monitor=authorised site=pool", fmt.Sprintf("scenario %q: ValidateQiTxInputs accepts tx %d input %d: entry locked until %s / denomination %d at height %d", s.Name, ti, ii, e.Lock, e.Den, ctx.spec.Height), c)
+				}
+			}
+		}
+		if ti >= len(wo.Verdicts) || wo.Verdicts[ti] == nil {
+			continue
+		}
+		for ii, k := range bt.inKeys {
+			if prev, dup := seen[string(k)]; dup {
+				rep.Fail("monitor=spent-once site=worker", fmt.Sprintf("scenario %q: the worker put tx %d into the pending block although its input %d consumes outpoint %x already consumed by included tx %d", s.Name, ti, ii, k, prev), c)
+			}
+			seen[string(k)] = ti
+			e, ok := base[string(k)]
+			if !ok {
+				rep.Fail("monitor=existed site=worker", fmt.Sprintf("scenario %q: the worker included tx %d whose input %d names outpoint %x which is not in the committed database", s.Name, ti, ii, k), c)
+				continue
+			}
+			lock, _ := new(big.Int).SetString(e.Lock, 10)
+			if lock.Cmp(new(big.Int).SetUint64(ctx.spec.Height)) > 0 {
+				rep.Fail("monitor=existed site=worker", fmt.Sprintf("scenario %q: the worker included tx %d input %d: entry locked until %s at height %d", s.Name, ti, ii, e.Lock, ctx.spec.Height), c)
+			}
+		}
+	}
+}
+
 func qiWrappingChangeBlock() uint64 { return params.QiWrappingChangeBlock }
 
 // ---------- main ----------
@@ -371,33 +429,56 @@ func runScenario(rep *hlib.Report, cw *hlib.CaseWriter, s *Scenario, id int, bks
 		if wo.Panic != "" {
 			rep.Fail("monitor=panic site=worker", fmt.Sprintf("scenario %q: processQiTx panicked: %s", s.Name, wo.Panic), c)
 		}
-		// monitor worker-agrees: replay the accepted list through ProcessQiTx as one block
+		monitorsWorker(rep, c, s, wctx, txs[0], wo)
+		// monitor worker-agrees: whatever list the worker accepts is replayed through the real ProcessQiTx as
+		// ONE block (one batch, SetPending(true), checkSig=false as after a pool hit) on two backends and must be
+		// accepted with the same fees / ETXs / outpoints.  The worker does not check keys (ownership is the pool's
+		// ValidateQiTxInputs), so accepted transactions the pool would refuse are left out of the replay; leaving
+		// transactions out only frees gas, ETX limits and outpoints, and can only move the firstQiTx exemption
+		// forward, so the remaining list must still be accepted.
 		acc := &Scenario{Kind: "proc", Name: s.Name + "/accepted-by-worker", Tracks: true, Keys: s.Keys, Base: s.Base,
 			Blocks: []BlockSpec{{Ctx: s.Blocks[0].Ctx}}}
 		var accTxs []*builtTx
 		var accObs []*TxObs
-		pooled := true // the worker only sees transactions that passed the pool's ValidateQiTxInputs (ownership is checked there)
+		nacc, unpooled := 0, 0
 		for i, v := range wo.Verdicts {
 			if v != nil {
+				nacc++
+				if !wo.Mempool[i] {
+					unpooled++
+					continue
+				}
 				accTxs = append(accTxs, txs[0][i])
 				accObs = append(accObs, v)
-				if !wo.Mempool[i] {
-					pooled = false
+			}
+		}
+		spenders, maxSp := map[string]int{}, 0
+		for _, bt := range txs[0] {
+			mine := map[string]bool{}
+			for _, k := range bt.inKeys {
+				if !mine[string(k)] {
+					mine[string(k)] = true
+					spenders[string(k)]++
+					if spenders[string(k)] > maxSp {
+						maxSp = spenders[string(k)]
+					}
 				}
 			}
 		}
-		rep.Count(fmt.Sprintf("worker:accepted=%d", len(accTxs)))
-		if !pooled {
-			rep.Count("worker:accepted a tx the pool would refuse (not replayed)")
+		rep.Count(fmt.Sprintf("worker:most-spenders-of-one-outpoint=%d", maxSp))
+		rep.Count(fmt.Sprintf("worker:accepted=%d", nacc))
+		if unpooled > 0 {
+			rep.Count("worker:accepted a tx the pool would refuse (left out of the replay)")
+		}
+		if nacc > 0 {
+			rep.Nontrivial(fmt.Sprintf("worker/%d", id))
 		}
 		if len(accTxs) > 0 {
-			rep.Nontrivial(fmt.Sprintf("worker/%d", id))
-		}
-		if len(accTxs) > 0 && pooled {
-			rep.Nontrivial(fmt.Sprintf("worker/%d", id))
+			rep.Count("worker:replayed through ProcessQiTx")
 			for _, bk := range []backend{bks[0], bks[2]} {
 				db2, close2 := bk.open(tmp)
-				obs := runProc(db2, acc, mkCtxs(), [][]*builtTx{accTxs})
+				actxs := mkCtxs()[:1]
+				obs := runProc(db2, acc, actxs, [][]*builtTx{accTxs})
 				close2()
 				if !obs[0].OK {
 					rep.Fail("monitor=worker-agrees backend="+bk.name,
@@ -410,6 +491,8 @@ func runScenario(rep *hlib.Report, cw *hlib.CaseWriter, s *Scenario, id int, bks
 							fmt.Sprintf("scenario %q: worker and ProcessQiTx disagree on fee/ETXs/outpoints of accepted tx %d", s.Name, i), c)
 					}
 				}
+				// the block the node assembled, as processed by the node: every property monitor of the processing path
+				monitorsProc(rep, c, "worker-block/"+bk.name, acc, actxs, [][]*builtTx{accTxs}, obs)
 			}
 		}
 		vs := make([]string, len(wo.Verdicts))
@@ -444,7 +527,7 @@ func main() {
 		"ProcessQiTx on 5 backend configurations with one write batch per block, or one pending block through the real worker.processQiTx + ValidateQiTxInputs; "+
 		"~60% valid, the rest adversarial (duplicate outpoints in a tx / block, wrong key, bad signature, locked, denominations, merge-up, out>in, address reuse, "+
 		"conversion / wrapping / cross-zone outputs, limits, fork regimes); non-trivial = at least one transaction accepted; distinct by scenario")
-	cw := hlib.NewCaseWriter(f.Out, "From Coq Require Import List NArith Bool.\nFrom GQ Require Import Lib.Key Lib.SMap Model.C01.\nImport ListNotations.\nLocal Open Scope N_scope.\n", "C01.case", 12)
+	cw := hlib.NewCaseWriter(f.Out, "From Coq Require Import String List NArith Bool.\nFrom GQ Require Import Lib.Key Lib.SMap Model.C01.\nImport ListNotations.\nLocal Open Scope N_scope.\nLocal Open Scope string_scope.\n", "C01.case", 12)
 	bks := backends()
 	tmp, _ := os.MkdirTemp("", "verif-c01-")
 	defer os.RemoveAll(tmp)
